@@ -62,6 +62,12 @@ var gwStub = []string{"clients (raw HTTP/1.1 bytes over pipes)", "upstream kube-
 
 var gwAssume = []string{"plain HTTP/1.1 on both sides (no TLS handshakes, HTTP/2 or upgrades)", "between two driver steps goroutines run under a single-P Go runtime; the seed decides every stimulus (request, release, spec write, health change, clock advance), not statement interleavings", "a clean batch is evidence, not proof"}
 
+var rlReal = []string{"1-3 limiter replicas: limiter.NewRateLimiter with the real elector over client-go leader election (leases), real UpstreamController informer and syncqueue, clientcache, allocation (calculateNextQuota), stores local / k8s", "the shipped limiter handler chain (endpoints.BuildHandlerChain: request info, panic recovery, LimiterDispatcher with go-restful routing and JSON decoding) served in-process on delivery", "gateway side: real pkg/ratelimiter/clientsets (server-info sync, heartbeats, readiness, shard routing) per instance"}
+
+var rlStub = []string{"instances' reporting logic (synthetic honest reporters calling the server API through the real client sets) / request threads", "control-plane API: leases on a kube fake with resource-version conflicts and per-node reachability, UpstreamCluster objects on the generated fake clientset, RateLimitConditions on simapi", "network (simnet round tripper: drops, partitions, node death), fake clock"}
+
+var rlAssume = []string{"one clock for all nodes (no skew); slow or cut-off nodes instead", "between two driver steps goroutines run under a single-P Go runtime; the seed decides every stimulus", "a clean batch is evidence, not proof"}
+
 var Checks = map[string]*Check{}
 
 func reg(c *Check) { Checks[c.ID] = c }
@@ -245,6 +251,15 @@ func init() {
 		Real: []string{"pkg/ratelimiter/clientsets (server-info sync, heartbeats, readiness hysteresis, client cache) over the simulated network", "pkg/flowcontrols UpstreamLimiter.Load/Sync/ResetLimiter", "pkg/flowcontrols/remote (reconcile loop, FlowControlCache, remote/local wrappers, global counter manager, maxInflight/tokenBucket wrappers, meters)", "client-go REST client encoding/decoding"},
 		Stub: []string{"the limiter server (byzantine script: the property quantifies over whatever the server answers)", "request threads (GetOrDefault/TryAcquire/hold/Release as the dispatcher does)", "network (simnet round tripper with partitions), fake clock"},
 		Assume: []string{"admissions are attributed to the limiter object that made them (remote vs local wrapper) through the public AllFlowControls() accessors", "token-bucket bound per limiter object allows one fresh burst per reconcile period (a new quota swaps in a new bucket)", "the server's coin is a pre-drawn sub-stream of the tape consumed in RPC arrival order", "a clean batch is evidence, not proof"},
+	})
+	reg(&Check{
+		ID:    "C07",
+		Title: "Global allocation: quotas never exceed the global limit and are never < 1",
+		Batches: []Batch{
+			{World: "rl", Profile: "c07-sequences", Quick: 200, Thor: 10000, PerProc: 1, FaultFree: true},
+		},
+		Rule: "each run = 1-2 replicas with real lease election, 1-3 shards, 1-2 upstreams with a max-in-flight and optionally a token-bucket schema (global limits 1 ... 100000), 2-6+ honest instances (each echoes exactly the quota it was last answered, reports used >= 0 and RequestLevel = floor(100*used/current)), 20-80 steps of reports, limit changes through the real upstream controller (raise, lower below the allocated sum), clock advances, instances leaving and joining; after every answered report the quotas the leader has on record are read back through its exposed API; distinct = distinct trace hash; non-trivial = at least 5 answered reports from 2+ instances",
+		Real: rlReal, Stub: rlStub, Assume: append([]string{"'honest' = echoes the last answered quota, used >= 0, RequestLevel = floor(100*used/current); an instance whose record was reclaimed still echoes its last quota"}, rlAssume...),
 	})
 	reg(&Check{ID: "SMOKE", Title: "debug", Batches: []Batch{{World: "gw", Profile: "smoke", Quick: 1, Thor: 1, PerProc: 1}}})
 }
